@@ -941,9 +941,33 @@ def scripted_tie(ck: Check, n: int):
             return 0.0 if script_good(tags, self.seed, self.m, self.k) else 1.0
 
     lines, ctx = [], []
+    gtc_lines, gtc_ctx = [], []
     for i in range(n):
         c, tag, nq = tagged_circuit(ck)
         N = len(tag)
+        # get_tree_circs AS IT IS (cycle arithmetic, IndexError included)
+        # against the cycle-grid model, both directions
+        from bqskit.passes import TreeScanningGateRemovalPass as _T
+        cyc_ops = {}
+        for cy_, op_ in c.operations_with_cycles():
+            cyc_ops.setdefault(cy_, []).append(op_)
+        grid = ' / '.join(' '.join(
+            f'{tag[o.gate]}:' + ','.join(map(str, o.location))
+            for o in cyc_ops[cy_]) for cy_ in range(c.num_cycles))
+        for lft in (True, False):
+            allops = list(c.operations_with_cycles(reverse=not lft))
+            for dpt in (1, 2, 3):
+                chunk = allops[:dpt]
+                try:
+                    real = ' ; '.join(' '.join(map(str, sorted(
+                        tag[o.gate] for o in x))) for x in _T.get_tree_circs(
+                            c.num_cycles, c.copy(), chunk))
+                except IndexError:
+                    real = 'raise'
+                gtc_lines.append(
+                    f'gtc {c.num_cycles} | {grid} | ' + ' '.join(
+                        f'{cy_}:{o.location[0]}' for cy_, o in chunk))
+                gtc_ctx.append((real, c, lft, dpt))
         seed, m = ck.rng.randrange(50), ck.rng.choice([2, 3, 5, 7])
         k = ck.rng.randrange(0, m + 1)
         cost = Scripted(tag, seed, m, k)
@@ -1022,6 +1046,20 @@ def scripted_tie(ck: Check, n: int):
             continue            # the model does not follow the defective shift
         lines.append(line)
         ctx.append((type(p).__name__, c, got))
+    for line, (real, c, lft, dpt), o in zip(gtc_lines, gtc_ctx,
+                                            ck.driver('accept', gtc_lines)):
+        ck.coverage['traces_validated_against_impl'] += 1
+        ck.bump('scripted_tie', 'get_tree_circs:' + (
+            'raise' if real == 'raise' else 'ok'))
+        model = o if o in ('raise', 'bad-op') else ' ; '.join(
+            ' '.join(map(str, sorted(map(int, x.split()))))
+            for x in o.split(' ; '))
+        if model != real:
+            ck.violation(
+                'model-get-tree-circs', 'get_tree_circs: the cycle-grid model '
+                f'gives {model!r}, the real code {real!r}',
+                {'line': line, 'start_from_left': lft, 'tree_depth': dpt,
+                 'circuit': circ_desc(c)}, found_input=False)
     for line, (pname, c, got), o in zip(lines, ctx,
                                         ck.driver('accept', lines)):
         ck.coverage['traces_validated_against_impl'] += 1
